@@ -2345,6 +2345,10 @@ class Ev:
                 return Obj(None, {"args": TupV([b[p_] for p_ in order if p_ in b]), "kwargs": DictV({}), "arguments": DictV({p_: b[p_] for p_ in order if p_ in b})}, closed=True, label="bound arguments")
 
             return Obj(None, {"bind": PyFunc(bind, "Signature.bind"), "parameters": DictV({x.arg: NONE for x in target.fn.args.args})}, closed=True, label="signature of %s" % target.fn.name)
+        if name.startswith("operator.") and name.split(".", 1)[1] in ("add", "sub", "mul", "truediv", "floordiv", "mod", "pow") and len(args) == 2 and not kwargs:
+            return self.binop({"add": ast.Add, "sub": ast.Sub, "mul": ast.Mult, "truediv": ast.Div, "floordiv": ast.FloorDiv, "mod": ast.Mod, "pow": ast.Pow}[name.split(".", 1)[1]](), args[0], args[1], e)
+        if name.startswith("operator.") and name.split(".", 1)[1] in ("lt", "le", "gt", "ge", "eq", "ne") and len(args) == 2 and not kwargs:
+            return self.compare({"lt": ast.Lt, "le": ast.LtE, "gt": ast.Gt, "ge": ast.GtE, "eq": ast.Eq, "ne": ast.NotEq}[name.split(".", 1)[1]](), args[0], args[1], e)
         if name in ("bisect.bisect_right", "bisect.bisect", "bisect.bisect_left", "bisect_right", "bisect_left", "bisect.insort", "bisect.insort_right", "bisect.insort_left", "insort") and len(args) == 2 and isinstance(args[0], ListV) and set(kwargs) <= {"key"}:
             # position of x in the sorted list a, found by the comparisons the library makes (x < a[i] / a[i] < x)
             a, x = args[0], args[1]
